@@ -164,7 +164,7 @@ func (r *Run) chooseSched(n int) int {
 		np := make([]Decision, len(r.taken)+1)
 		copy(np, r.taken)
 		np[len(r.taken)] = Decision{Kind: dkSched, N: int32(n), Alt: int32(j)}
-		r.E.push(np)
+		r.pushPrefix(np)
 	}
 	r.taken = append(r.taken, Decision{Kind: dkSched, N: int32(n), Alt: 0})
 	return 0
